@@ -192,6 +192,32 @@ impl<'r> Gen<'r> {
                 };
                 self.item(name, form)
             }
+            Ty::PV(_) | Ty::PE(_) | Ty::OverridePV(_) => {
+                let is_pe = matches!(ty, Ty::PE(_));
+                let form = if self.mistake(self.cfg.allow.bad_value, 10) {
+                    match self.rng.below(3) {
+                        0 => Form::Word,
+                        1 => Form::List(self.junk_nested()),
+                        _ if is_pe => Form::Word,
+                        _ => Form::NV(Value::PathExpr("a::b".into())),
+                    }
+                } else {
+                    match self.rng.below(6) {
+                        0 => Form::NV(Value::Int(format!("{}", self.next_id + 1))),
+                        1 => Form::NV(Value::Str("v".into())),
+                        2 => Form::NV(Value::Bool(true)),
+                        3 => Form::NV(Value::Char('k')),
+                        4 if is_pe => Form::NV(Value::PathExpr("x::y".into())),
+                        4 if matches!(ty, Ty::OverridePV(_)) => Form::Word,
+                        _ => Form::NV(Value::Int("7".into())),
+                    }
+                };
+                let it = self.item(name, form);
+                if matches!(&it.form, Form::NV(_)) {
+                    self.probe_items.push((it.id, false));
+                }
+                it
+            }
             Ty::Any(_) => {
                 let form = self.wild_form(depth);
                 self.item(name, form)
@@ -448,7 +474,7 @@ impl<'r> Gen<'r> {
             let present = if too_deep && (is_recursive || matches!(fd.ty, Ty::Opt(_))) {
                 false
             } else if is_recursive {
-                self.rng.pct(55)
+                self.rng.pct(if self.cfg.max_depth > 3 { 97 } else { 55 })
             } else {
                 self.rng.pct(self.cfg.p_present)
             };
@@ -519,8 +545,8 @@ impl<'r> Gen<'r> {
     }
 }
 
-pub const META_RECEIVERS: [&str; 28] = [
-    "S1", "S2", "S3", "S4", "S5", "S6", "S7", "S8", "S9", "S10", "S11", "N1", "N2", "Rec", "F1", "F2", "F3", "F4", "U1", "NT1", "NT2", "W1", "E1",
+pub const META_RECEIVERS: [&str; 29] = [
+    "S1", "S2", "S3", "S4", "S5", "S6", "S7", "S8", "S9", "S10", "S11", "S12", "N1", "N2", "Rec", "F1", "F2", "F3", "F4", "U1", "NT1", "NT2", "W1", "E1",
     "E2", "E3", "EH", "WR", "MP",
 ];
 
@@ -696,7 +722,7 @@ pub fn generate(run_seed: u64, mode: &'static str, recvs: &'static std::collecti
         p_present: if mistake_free { 100 } else { *grng.pick(&[60u32, 85, 95]) },
         mistakes_left: if mistake_free { 0 } else { grng.range(0, 8) },
         allow,
-        max_depth: if mode == "wild" && grng.pct(10) { grng.range(4, 40) } else { grng.range(1, 3) },
+        max_depth: if mode == "wild" && grng.pct(10) { grng.range(4, 100) } else { grng.range(1, 3) },
     };
     let names: Vec<&'static str> = receiver_names(mode);
     let receiver = *grng.pick(&names);
